@@ -6,10 +6,10 @@
 #define CVBR_TOL_CELT 0.65, 0.42, 0.22, 0.12, 0.06, 0.05
 #define CVBR_TOL_SILK 2.40, 2.40, 2.40, 2.40, 2.40, 2.40
 // SILK / hybrid cells: bitrate <= 12k, <= 16k, <= 24k, > 24k
-#define CVBR_SILK_NOHYB_T 2.60, 0.90, 0.42, 0.31
+#define CVBR_SILK_NOHYB_T 2.60, 0.90, 0.42, 0.20
 #define CVBR_SILK_NOHYB_O 2.60, 0.66, 0.16, 0.10
 #define CVBR_SILK_HYB_T   2.60, 1.48, 1.48, 1.48
-#define CVBR_SILK_HYB_O   2.60, 0.50, 0.35, 0.20
+#define CVBR_SILK_HYB_O   2.60, 0.50, 0.47, 0.47
 struct LockstepExec {
   Run &run; std::string prop;
   Session S;
